@@ -35,11 +35,12 @@ class ScaleSim(Sim):
     QUICK_RUNS = 64
     THOROUGH_RUNS = 1600
     MAX_EVENTS = 3
-    RUN_TIMEOUT = 900
+    RUN_TIMEOUT = 300
     SELFTEST_RUNS = 4
     PROBES = ["chain_depth_ge_10000", "chain_depth_ge_40000", "recursion_limit_400", "recursion_limit_3000", "fanout_ge_5000", "ladder_ge_2000",
               "untracked_no_grad_loop", "untracked_nograd_operands_loop", "untracked_interleaved_with_tracked", "work_scaling_measured",
-              "gc_during_build", "chain_with_view_ops", "same_operand_twice_in_chain"]
+              "gc_during_build", "chain_with_view_ops", "same_operand_twice_in_chain", "chain_two_sweeps", "chain_retain_ctx", "chain_retain_every",
+              "untracked_body_mul_param_add_param", "untracked_body_functional", "untracked_body_linear", "untracked_body_views", "untracked_body_unbind"]
     RULE = ("one run = 1-3 large scenarios (deep chain / wide fan-out / diamond ladder / untracked loop / work-scaling pair) with seeded sizes, op "
             "patterns, recursion-limit knob and gc schedule; distinct = scenario family x size bucket x recursion limit; non-trivial = every run")
     ASSUMPTIONS = ["cost is judged on deterministic work counters (line events in tensor.py, Tensor.__eq__/__hash__ calls), not on time: "
@@ -63,17 +64,34 @@ class ScaleSim(Sim):
             if kn["big"]:
                 depth = rng.choice([100000, 200000])
             return {"k": "chain", "depth": depth, "seed": rng.randrange(10 ** 6), "views": rng.random() < 0.4, "gc_every": rng.choice([0, 0, 5000]),
-                    "limit": kn["limit"], "retain_some": rng.random() < 0.3}
+                    "limit": kn["limit"], "retain": rng.choice(["none", "none", "some", "ctx", "every"]), "sweeps": rng.choice([1, 1, 2])}
         if fam == "fanout":
             return {"k": "fanout", "n": rng.choice([1000, 3000, 6000, 10000]), "limit": kn["limit"]}
         if fam == "ladder":
             return {"k": "ladder", "n": rng.choice([500, 2000, 5000, 12000]), "limit": kn["limit"]}
         if fam == "untracked":
             return {"k": "untracked", "n": rng.choice([10000, 30000, 100000]), "mode": rng.choice(["no_grad", "nograd_operands"]),
+                    "body": rng.choice(["scale_add", "mul_param_add_param", "functional", "linear", "views", "unbind"]),
                     "tracked_every": rng.choice([0, 0, 2500]), "limit": kn["limit"]}
         return {"k": "work", "n": rng.choice([400, 800]), "shape": rng.choice(["chain", "ladder"])}
 
+    def _preflight(self, st):
+        """tiny ladders first: work that grows with the number of PATHS (2^n) instead of nodes shows at n = 6 vs 12 and would never
+        finish at the sizes below"""
+        sys.setrecursionlimit(100000)
+        try:
+            w1, _ = self._measure(st, 6, "ladder")
+            w2, _ = self._measure(st, 12, "ladder")
+        finally:
+            sys.setrecursionlimit(1000)
+        if w2 > 2.6 * w1:
+            st.fail("C17.linear_cost", f"ladder of 6 vs 12 diamonds: deterministic work counter {w1} -> {w2} (x{w2 / max(w1, 1):.1f} for 2x the nodes): "
+                    "the cost of backward grows with the number of paths, not with the size of the graph")
+
     def apply(self, st, ev):
+        if not getattr(st, "preflight_done", False):
+            st.preflight_done = True
+            self._preflight(st)
         if "limit" in ev:
             sys.setrecursionlimit(ev["limit"])
             if ev["limit"] == 400: st.probes["recursion_limit_400"] += 1
@@ -117,6 +135,11 @@ class ScaleSim(Sim):
         d = 1.0
         level = 0
         probes_kept = []
+        retain = ev.get("retain", "some" if ev.get("retain_some") else "none")
+        sweeps = ev.get("sweeps", 1)
+        rctx = SG.sg.retain_grads() if retain == "ctx" else None
+        if rctx is not None:
+            rctx.__enter__()
         with quiet():
             for i in range(depth):
                 r = rng.random()
@@ -138,8 +161,10 @@ class ScaleSim(Sim):
                     cur = cur.clone()
                 else:
                     cur = cur - 0.125
+                if retain == "every" and cur.requires_grad:
+                    cur.retain_grad()
                 if i % 997 == 0:
-                    probes_kept.append(weakref.ref(cur) if False else cur)
+                    probes_kept.append(cur)
                 if ev["gc_every"] and i and i % ev["gc_every"] == 0:
                     gc.collect()
                     st.probes["gc_during_build"] += 1
@@ -150,19 +175,28 @@ class ScaleSim(Sim):
         if depth >= 10000: st.probes["chain_depth_ge_10000"] += 1
         if depth >= 40000: st.probes["chain_depth_ge_40000"] += 1
         retained = None
-        if ev["retain_some"] and probes_kept:
+        if retain == "some" and probes_kept:
             retained = probes_kept[len(probes_kept) // 2]
             if retained.requires_grad:
                 retained.retain_grad()
         g = np.array([1.0, 0.5, -2.0])
-        self._backward_checked(st, cur, g, len(created), f"chain of {depth} sequential operations")
+        try:
+            for sweep in range(sweeps):
+                # (a second sweep over the same deep graph crosses the gradients the first one retained)
+                self._backward_checked(st, cur, g, len(created), f"chain of {depth} sequential operations (retain={retain}, sweep {sweep + 1} of {sweeps})")
+        finally:
+            if rctx is not None:
+                rctx.__exit__(None, None, None)
+        st.probes[f"chain_retain_{retain}"] += 1
+        if sweeps == 2:
+            st.probes["chain_two_sweeps"] += 1
         with quiet():
             got = x.grad
-        want = g * d
+        want = g * d * sweeps
         if got is None or not np.array_equal(np.asarray(got.data, dtype=np.float64), want):
             st.fail("C17.deep_gradient", f"chain of {depth} ops: leaf gradient {None if got is None else got.data.tolist()}, closed form {want.tolist()}")
         for t in probes_kept:
-            if t is cur or t is retained:
+            if t is cur or t is retained or retain in ("ctx", "every"):
                 continue
             with quiet():
                 if t.grad is not None:
@@ -215,8 +249,28 @@ class ScaleSim(Sim):
         st.sig.append(f"untracked:{mode}:{n // 20000}")
         gc.collect()
         base_live = sum(1 for o in gc.get_objects() if isinstance(o, SG.Tensor))
-        w = SG.Tensor(np.array([0.5, 0.25]), requires_grad=(mode == "no_grad"))
+        body = ev.get("body", "scale_add")
+        st.probes["untracked_body_" + body] += 1
+        pg = (mode == "no_grad")       # parameters require grad only where no_grad makes the loop untracked
+        w = SG.Tensor(np.array([0.5, 0.25]), requires_grad=pg)
+        b = SG.Tensor(np.array([0.125, -0.25]), requires_grad=pg)
+        W = SG.Tensor(np.array([[0.5, 0.0], [0.0, 0.25]]), requires_grad=pg)
         x = SG.Tensor(np.array([1.0, 2.0]))
+        sg = SG.sg
+
+        def step(x):
+            if body == "scale_add":
+                return x * 0.5 + w
+            if body == "mul_param_add_param":
+                return x * w + b                         # every op on the loop-carried value takes a parameter directly
+            if body == "functional":
+                return sg.add(sg.mul(x, w), b)
+            if body == "linear":
+                return sg.linear(x.reshape((1, 2)), W, b).reshape((2,))
+            if body == "views":
+                return (x.reshape((2, 1)).transpose(0, 1).reshape((2,)) * w) + b
+            u = sg.unbind(sg.stack([x * w, b], 0), 0)
+            return u[0] + u[1]
         refs = []
         checked = 0
         ctx = SG.sg.no_grad() if mode == "no_grad" else None
@@ -226,7 +280,7 @@ class ScaleSim(Sim):
         try:
             with quiet():
                 for i in range(n):
-                    x = x * 0.5 + w                      # two untracked results per step
+                    x = step(x)
                     if x.requires_grad:
                         st.fail("C17.untracked_keeps_history", f"step {i}: a result computed while gradients are not tracked requires grad")
                     if i % 1000 == 0:
